@@ -642,8 +642,9 @@ class Analysis:
         cs = list(st)
         if kind in (True, False):
             for op, L, R, Le, Re in cond_atoms(cond, kind):
-                a = self.lin(Le, st) if Le is not None else None
-                b = self.lin(Re, st) if Re is not None else (Lin.const(R[1]) if R[0] == "c" and isinstance(R[1], int) else None)
+                # the atom's constants are authoritative (cond_atoms also reports x > 4 as x >= 5 with the original elements)
+                a = Lin.const(L[1]) if L[0] == "c" and isinstance(L[1], int) else (self.lin(Le, st) if Le is not None else None)
+                b = Lin.const(R[1]) if R[0] == "c" and isinstance(R[1], int) else (self.lin(Re, st) if Re is not None else None)
                 if a is None or b is None:
                     continue
                 if op == "!=":
@@ -665,10 +666,31 @@ class Analysis:
         return frozenset(s2)
 
     # -- join ----------------------------------------------------------------------------
+    @staticmethod
+    def _eq_halves(P):
+        """The constraints of P that are one half of an equality (their mirror image is in P too)."""
+        S = set(P)
+        out = []
+        for c in P:
+            m = (tuple((v, -k) for v, k in c[0]), -c[1])
+            if m in S:
+                out.append(c)
+        return out
+
     def _joinP(self, a, b, widen=False):
         keep = [c for c in a if self._entailsP(b, [c])]
         if not widen:
             keep += [c for c in b if c not in a and self._entailsP(a, [c])]
+        # sums of two equalities of one side that the other side satisfies: "x == x0 and n == n0" joined with
+        # "x == x0 + d and n == n0 - d" keeps x + n == x0 + n0 (a quantity both sides preserve)
+        for X, Y in ((a, b),) if widen else ((a, b), (b, a)):
+            hs = self._eq_halves(X)
+            if 2 <= len(hs) <= 16:
+                for i in range(len(hs)):
+                    for j in range(i + 1, len(hs)):
+                        c = le0(_lin_of_con(hs[i]) + _lin_of_con(hs[j]))
+                        if isinstance(c, tuple) and c not in keep and self._entailsP(Y, [c]):
+                            keep.append(c)
         r = _simplify(keep)
         return frozenset(r if r is not False else [])
 
